@@ -609,6 +609,7 @@ WITNESSES = [
     "PS1='\\D{%Q}'; echo \"${PS1@P}\"", "HISTFILE=/dev/null; history -c; HISTTIMEFORMAT='%Q '; history -s a; history",
     "case x in x) " * 24 + "case x x) " + "echo x " + ";; esac " * 25,
     "echo " + "{a," * 30 + "b" + "}" * 12,
+    "echo {1..9223372036854775807}; echo after",
 ]
 WITNESSES_PROC = ["(( 08 )) &\nwait\nwait", "echo ${x:?} &\nwait\nwait; echo $?", "cat <<'' "]
 
